@@ -53,7 +53,7 @@ REACH_PROBES = ('match', 'match_groups', 'match_all', 'flags', 'inside_lambda', 
 
 FLAGS = [None, '', 'i', 'm', 's', 'ims', 'IM', 'is', 'x', 'zz', 'iiii']
 BENIGN = ['\\d+', '[a-z]+', '(\\w)(\\d)', 'b', '.', 'a|b', '^a', 'c$', '(a)(b)?', '\\s']
-NASTY = ['(?:a|aa)+?', '(a|aa)+?(?=a|b)', '^(\\w+-?)+{id}$', 'a{x}(b+)+$', '(a+)+$', '(a|aa)+$', '(a*)*b', '(a|a)*c', '(.*a){12}', '(a+)+(b)$', '((a+)(c?))+$', '(?:a{1,50}){1,50}b', '(\\w+\\s?)*$',
+NASTY = ['(?#\\L<timeout>)(a|aa)+$', '(?:a|aa)+?', '(a|aa)+?(?=a|b)', '^(\\w+-?)+{id}$', 'a{x}(b+)+$', '(a+)+$', '(a|aa)+$', '(a*)*b', '(a|a)*c', '(.*a){12}', '(a+)+(b)$', '((a+)(c?))+$', '(?:a{1,50}){1,50}b', '(\\w+\\s?)*$',
          '(a|aa)+(c)$', '(?r)(a+)+b', '(?:aa|a)+?x{e<=1}', '(x+x+)+y', '(a)(b)\\1\\2(a+)+$']
 
 
@@ -82,6 +82,8 @@ def generate(seed, tier):
                 pat = '@PAT' if nasty else '@PATB'       # a pattern the host compiled and bound in names
             subj_kind = weighted(ro, [('short', 4), ('adversarial', 3 if nasty else 0.5), ('long', 1.5), ('huge', 0.4)])
             subj = {'short': ['name', 'S'], 'adversarial': ['name', 'ADV'], 'long': ['name', 'LONG'], 'huge': ['name', 'HUGE']}[subj_kind]
+            if ro.random() < 0.06:
+                subj = ro.choice([['none'], ['num', '1'], ['list', [['str', 'a']]], ['name', 'timeout']])      # not a string at all: the call fails
             flags = ro.choice(FLAGS)
             t = _call_tree(ro, fn, subj, pat, flags)
             x = ro.random()
@@ -110,7 +112,7 @@ def generate(seed, tier):
         fn = rc.choice(['match', 'match_groups', 'match_all'])
         ops.append({'op': 'host_lambda', 'src': 'v => %s(v, "%s")' % (fn, rc.choice(['(a+)+$', '\\\\d+', '(a|aa)+$'])), 'subject': rc.choice(['ADV', 'S', 'LONG'])})
     return {'world': {'adv_len': rc.choice([18, 22, 26]), 'long_len': rc.choice([3000, 8000, 20000]), 'huge_len': 100000,
-                      'inject_timeouts': rc.random() < 0.5}, 'ops': ops}
+                      'inject_timeouts': rc.random() < 0.5, 'premature': rc.random() < 0.3}, 'ops': ops}
 
 
 def execute(case, ctx):
@@ -138,6 +140,10 @@ def execute(case, ctx):
     parser = boot.fresh_parser()
     REGEX.reset('virtual')
     REGEX.inject_timeouts = bool(w.get('inject_timeouts'))
+    if w.get('premature') and REGEX.inject_timeouts:
+        REGEX.premature_left = 60
+        ctx.fault('regex_timeouts_arrive_early')
+    names['timeout'] = 20        # plain data that happens to be called like a keyword argument of the engine
     state = {'adv_after_wait': False}
 
     def pre(name, args, rec):
